@@ -33,6 +33,11 @@ type Scenario struct {
 	Plan *PlanSpec `json:"plan,omitempty"`
 	// class burst: barrier-released concurrent Subscribe / Cancel rounds
 	Burst *BurstSpec `json:"burst,omitempty"`
+	// class cfgdb: script against the real config module's injected database
+	Cfg []CfgOp `json:"cfg,omitempty"`
+	// Reentrant (backend injmap): the injected storage pushes an update of a companion
+	// record from inside its own Put (a provider that calls PushUpdate re-entrantly)
+	Reentrant bool `json:"reentrant,omitempty"`
 }
 
 // Delay configures the handlers installed at db.put.prenotify / db.sub.cancel.
@@ -182,6 +187,16 @@ func (c *Cond) build() query.Condition {
 		return query.Where("Tag", query.StartsWith, c.S)
 	case "con":
 		return query.Where("Tag", query.Contains, c.S)
+	case "state":
+		return query.Where("State", query.SameAs, "s-"+c.S)
+	case "flag":
+		return query.Where("Flag", query.Is, c.N != 0)
+	case "level":
+		return query.Where("Level", query.GreaterThan, c.N)
+	case "ratio":
+		return query.Where("Ratio", query.FloatGreaterThan, float64(c.N)/4)
+	case "in":
+		return query.Where("Tag", query.In, c.inList())
 	case "not":
 		return query.Not(c.Kids[0].build())
 	case "and", "or":
@@ -219,6 +234,21 @@ func (c *Cond) eval(score int, tag string) bool {
 		return strings.HasPrefix(tag, c.S)
 	case "con":
 		return strings.Contains(tag, c.S)
+	case "state":
+		return tag == c.S
+	case "flag":
+		return (score%2 == 0) == (c.N != 0)
+	case "level":
+		return score/10 > c.N
+	case "ratio":
+		return float64(score)/4 > float64(c.N)/4
+	case "in":
+		for _, t := range strings.Split(c.S, ",") {
+			if t == tag {
+				return true
+			}
+		}
+		return false
 	case "not":
 		return !c.Kids[0].eval(score, tag)
 	case "and":
@@ -239,6 +269,16 @@ func (c *Cond) eval(score int, tag string) bool {
 	panic("bad cond op " + c.Op)
 }
 
+// inList is the value list of an "in" condition: the tags named in S plus fillers up
+// to N entries.
+func (c *Cond) inList() []string {
+	l := strings.Split(c.S, ",")
+	for i := 0; len(l) < c.N; i++ {
+		l = append(l, fmt.Sprintf("filler-%d", i))
+	}
+	return l
+}
+
 func (c *Cond) String() string {
 	if c == nil {
 		return "-"
@@ -250,7 +290,9 @@ func (c *Cond) String() string {
 			ks = append(ks, c.Kids[i].String())
 		}
 		return c.Op + "(" + strings.Join(ks, ",") + ")"
-	case "tag", "pre", "con":
+	case "in":
+		return fmt.Sprintf("in:%s/%d", c.S, c.N)
+	case "tag", "pre", "con", "state":
 		return c.Op + ":" + c.S
 	}
 	return fmt.Sprintf("%s:%d", c.Op, c.N)
